@@ -1259,14 +1259,17 @@ static void swap_bitfields(struct uftrace_record *rstack)
 static int __read_task_ustack(struct uftrace_task_reader *task)
 {
 	FILE *fp = task->fp;
+	struct uftrace_record rec;
 
-	if (fread(&task->ustack, sizeof(task->ustack), 1, fp) != 1) {
+	/* do not clobber the previous record with a partial one */
+	if (fread(&rec, sizeof(rec), 1, fp) != 1) {
 		if (feof(fp))
 			return -1;
 
 		pr_warn("error reading rstack: %s\n", strerror(errno));
 		return -1;
 	}
+	task->ustack = rec;
 
 	if (task->h->needs_byte_swap)
 		swap_byte_order(&task->ustack);
@@ -1555,11 +1558,15 @@ int read_task_event(struct uftrace_task_reader *task, struct uftrace_record *rec
  */
 int read_task_ustack(struct uftrace_data *handle, struct uftrace_task_reader *task)
 {
+	struct uftrace_record prev;
+
 	if (task->valid)
 		return 0;
 
 	if (task->done || task->fp == NULL)
 		return -1;
+
+	prev = task->ustack;
 
 	if (__read_task_ustack(task) < 0) {
 		task->done = true;
@@ -1567,12 +1574,23 @@ int read_task_ustack(struct uftrace_data *handle, struct uftrace_task_reader *ta
 	}
 
 	if (task->ustack.more) {
+		int ret = 0;
+
 		if (task->ustack.type == UFTRACE_ENTRY)
-			read_task_args(task, &task->ustack, false);
+			ret = read_task_args(task, &task->ustack, false);
 		else if (task->ustack.type == UFTRACE_EXIT)
-			read_task_args(task, &task->ustack, true);
+			ret = read_task_args(task, &task->ustack, true);
 		else if (task->ustack.type == UFTRACE_EVENT)
-			read_task_event(task, &task->ustack);
+			ret = read_task_event(task, &task->ustack);
+
+		/* a truncated payload is the end of data: drop the partial record */
+		if (ret < 0 && (feof(task->fp) || task->ustack.type == UFTRACE_EVENT)) {
+			task->ustack = prev;
+			task->args.args = NULL;
+			task->args.len = 0;
+			task->done = true;
+			return -1;
+		}
 
 		if (unlikely(task->args.args == NULL || task->args.len == 0)) {
 			struct uftrace_symbol *sym;
